@@ -342,6 +342,13 @@ def oracle_forms(ctx: Ctx, scale=1):
              ("irispie.convert_to_new_freq", lambda p, g, pos: ir.convert_to_new_freq(p, g, position=pos)),
              ("dates.refrequent", lambda p, g, pos: D.refrequent(p, g, position=pos)),
              ("Period.to_daily", lambda p, g, pos: p.to_daily(position=pos) if g is ir.Frequency.DAILY else p.refrequent(g, position=pos))]
+    # the position handed over positionally (regular source periods: `to_ymd(position)` takes it as its first argument;
+    # a daily source has no position to take)
+    positional = [("Period.refrequent(g, pos)", lambda p, g, pos: p.refrequent(g, pos)),
+                  ("Period.convert(g, pos)", lambda p, g, pos: p.convert(g, pos)),
+                  ("Period.convert_to_new_freq(g, pos)", lambda p, g, pos: p.convert_to_new_freq(g, pos)),
+                  ("irispie.refrequent(p, g, pos)", lambda p, g, pos: ir.refrequent(p, g, pos)),
+                  ("Period.to_daily(pos)", lambda p, g, pos: p.to_daily(pos) if g is ir.Frequency.DAILY else p.refrequent(g, pos))]
     for _ in range(ctx.n(400, 6000) * scale):
         f = rng.choice(REG + ["D"])
         s = SEQ_BASE[f] + rng.randint(-400, 400)
@@ -355,13 +362,54 @@ def oracle_forms(ctx: Ctx, scale=1):
                 day = p.to_python_date(position=pos)
                 if not (want.to_python_date(position="start") <= day <= want.to_python_date(position="end")):
                     continue   # reported by the containment oracle
-                for name, fn in forms:
+                for name, fn in forms + (positional if f != "D" else []):
                     got = fn(p, FREQ[g], pos)
                     if type(got) is not type(want) or got != want:
                         ctx.fail("refrequent-function-form", {**case, "pos": pos, "form": name},
                                  f"{name}({p!r}, {g}, position={pos!r}) = {got!r}, the method gives {want!r}")
             except Exception as e:
                 ctx.fail("refrequent-function-form", {**case, "pos": pos}, repr(e))
+    # --- integer arguments of other integer types (numpy scalars, as they come out of arrays and loops over them): the period
+    # built from them is the period built from the Python ints, or the call refuses; it is never silently another period
+    import numpy as np
+    ctors = {"Y": ir.yy, "H": ir.hh, "Q": ir.qq, "M": ir.mm}
+    for _ in range(ctx.n(300, 4000) * scale):
+        f = rng.choice(REG + ["D", "I"])
+        s = SEQ_BASE[f] + rng.randint(-400, 400)
+        p = CLS[f](s)
+        npint = rng.choice([np.int64, np.int32, np.int16 if f != "D" else np.int64])
+        case = {"freq": f, "serial": s, "int_type": npint.__name__}
+        ctx.evaluations += 1
+        calls = []
+        if f == "I":
+            calls = [("ii(n)", lambda: ir.ii(npint(s))), ("IntegerPeriod(n)", lambda: D.IntegerPeriod(npint(s)))]
+        else:
+            y, m, d = p.to_ymd(position=rng.choice(POS)) if f != "D" else p.to_ymd()
+            for g in REG + ["D"]:
+                calls.append((f"from_ymd({g})", (lambda g=g: ir.Period.from_ymd(FREQ[g], npint(y), npint(m), npint(d))), (lambda g=g: ir.Period.from_ymd(FREQ[g], y, m, d))))
+                calls.append((f"from_ymd({g}) month only numpy", (lambda g=g: ir.Period.from_ymd(FREQ[g], y, npint(m), d)), (lambda g=g: ir.Period.from_ymd(FREQ[g], y, m, d))))
+            if f == "D":
+                calls.append(("dd(y, m, d)", lambda: ir.dd(npint(y), npint(m), npint(d)), lambda: ir.dd(y, m, d)))
+            else:
+                yy_, seg = p.to_year_segment()
+                calls.append(("from_year_segment", lambda: type(p).from_year_segment(npint(yy_), npint(seg)), lambda: p))
+                calls.append(("from_year_segment segment only numpy", lambda: type(p).from_year_segment(yy_, npint(seg)), lambda: p))
+                calls.append(("constructor", (lambda: ctors[f](npint(yy_), npint(seg)) if f != "Y" else ctors[f](npint(yy_))), lambda: p))
+                calls.append(("constructor segment only numpy", (lambda: ctors[f](yy_, npint(seg)) if f != "Y" else ctors[f](npint(yy_))), lambda: p))
+        for entry in calls:
+            name, fn = entry[0], entry[1]
+            want_fn = entry[2] if len(entry) > 2 else (lambda: p)
+            try:
+                want = want_fn()
+            except Exception:
+                continue
+            try:
+                got = fn()
+            except Exception:
+                ctx.count("numpy_int_argument_refused")
+                continue
+            if type(got) is not type(want) or int(got.serial) != int(want.serial):
+                ctx.fail("integer-type-of-argument", {**case, "call": name}, f"{name} with {npint.__name__} arguments gives {got!r}, with Python ints {want!r}")
     # --- sequence forms
     for f, shape, seq in gen_sequences(ctx, rng):
         ps = [CLS[f](x) for x in seq]
